@@ -1842,7 +1842,7 @@ def run(tier: str, driver_ok: bool) -> Result:
                         res.violation("returned object does not carry the numbers and counts of the document", key_case, key="object-differs-from-document", impl=_short(skeleton(impl["ok"])), expected=_short(std))
             # a start tag wrapped over lines whose continuation is NOT attribute syntax (or repeats an attribute): the document is not
             # well-formed for any XML parser; an object returned for it was built from a start tag that was only partly parsed
-            if ":wrapped-" in str(c.get("label", "")) and c["kind"] not in ("parse", "parse_attrs"):
+            if ":wrapped-" in str(c.get("name", "")) and c["kind"] not in ("parse", "parse_attrs"):
                 import xml.etree.ElementTree as _ET
 
                 try:
